@@ -246,7 +246,7 @@ class Check:
             if b.startswith("Closed"):
                 ass[name] = []
             else:
-                ass[name] = sorted(set(re.findall(r"(?m)^([A-Za-z_][\w.']*)\s*:", b.split("\n", 1)[1] if "\n" in b else "")))
+                ass[name] = sorted(set(l.split(":")[0].strip() for l in b.split("\n")[1:] if l and not l[0].isspace() and not l.startswith("Closed") and not l.startswith("Axioms")))
         declared = set(re.findall(r"(?:Theorem|Example|Corollary)\s+([A-Za-z0-9_']+)", src))
         ok_all = True
         for t in theorems:
@@ -259,6 +259,17 @@ class Check:
         allax = sorted(set(a for v in ass.values() for a in v))
         self.stats["axioms_used"] = allax
         return ok_all
+
+    def translate(self, generator):
+        """run a translator (regenerates a coq/gen file from /repo); a TranslationError is a broken obligation"""
+        sys.path.insert(0, os.path.join(VERIF, "translator"))
+        try:
+            import importlib
+            mod = importlib.import_module(generator)
+            return mod.main_for(REPO, os.path.join(COQ, "gen"))
+        except Exception as e:  # noqa
+            self.broken.append({"theorem": "translation of the current source failed (%s): %s" % (generator, e), "correspondence": None, "coqc_tail": traceback.format_exc()[-800:]})
+            return None
 
     def lint(self):
         bad = []
@@ -389,7 +400,7 @@ class Check:
             for v in unmatched[:3]:
                 n += 1
                 path = os.path.join(VERIF, "replays", "%s_%s_%d.json" % (self.prop, self.tier, n))
-                rec = {"property": self.prop, "seed": self.seed, "tier": self.tier, "broken": None, "no_failing_input_found": False}
+                rec = {"property": self.prop, "seed": self.seed, "tier": self.tier, "broken": self.broken or None, "no_failing_input_found": False}
                 rec.update(v)
                 json.dump(rec, open(path, "w"), indent=1, default=str)
                 lines.append("VIOLATION property=%s replay=%s kind=%s" % (self.prop, path, v["kind"]))
